@@ -1434,6 +1434,8 @@ class Frame:
         if isinstance(f, BuiltinFn):
             return builtin_call(self, f.name, args, kwargs)
         if isinstance(f, TypeRef):
+            if f.name == "DataFrame":
+                return I.models["pandas.DataFrame"](self, args, kwargs)
             return builtin_call(self, f.name, args, kwargs)
         if isinstance(f, BoundBuiltin):
             from .models import method_call
@@ -1716,7 +1718,7 @@ def builtin_call(fr: Frame, name, args, kwargs):
         return fr.truthy(args[0])
     if name == "str":
         x = args[0]
-        if isinstance(x, str):
+        if isinstance(x, (str, SymStr)):
             return x
         if is_pyint(x):
             return str(x)
